@@ -118,7 +118,7 @@ def run(chk):
     vol = vplib.vh("kg", ["volume", "--n", str(nk), "--tier", T, "--seed", str(chk.seed), trace, wtrace], timeout=3000)
     chk.add_replay(vol, "volume")
     # 3a. every real worker goroutine's hook sequence must be a path of the worker process of SafePrimeWorkers.tla
-    wt = vplib.tlc("SafePrimeWorkersTrace", "SafePrimeWorkers.wtrace.cfg", workers=1, timeout=900,
+    wt = vplib.tlc("SafePrimeWorkersTrace", "SafePrimeWorkers.wtrace.cfg", workers=1, timeout=900, xss="1g",
                    files={"wtrace.ndjson": open(wtrace).read()}, allow_fail=True)
     nw = sum(1 for _ in open(wtrace))
     chk.add_tlc(wt, "SafePrimeWorkersTrace", "SafePrimeWorkers.wtrace.cfg", "%d recorded worker goroutines" % nw)
@@ -147,7 +147,7 @@ def run(chk):
                                    "without passing the stop check / the guarded send): %s" % culprit, "culprit": culprit, "seed": chk.seed})
     else:
         chk.traces += nw
-    tv = vplib.tlc("KeyGenTrace", "KeyGen.trace.cfg", workers=1, timeout=1500,
+    tv = vplib.tlc("KeyGenTrace", "KeyGen.trace.cfg", workers=1, timeout=1500, xss="1g",
                    files={"trace.ndjson": open(trace).read()}, allow_fail=True)
     nev = sum(1 for _ in open(trace))
     chk.add_tlc(tv, "KeyGenTrace", "KeyGen.trace.cfg", "%d recorded events of %d key generations" % (nev, nk))
